@@ -43,8 +43,12 @@ func runC17(t *testing.T, r *engine.Run) {
 		wd.next(tp) // only the bookkeeping: objects are inserted below
 	}
 	var objs []config.Config
-	for _, k := range wd.existingKeys() {
-		objs = append(objs, wd.exists[k])
+	for i, k := range wd.existingKeys() {
+		o := wd.exists[k]
+		// the resource version is part of the object (the API server assigns it; the in-memory store would
+		// otherwise stamp its own clock reading, which some generated resources embed)
+		o.ResourceVersion = fmt.Sprint(1000 + i)
+		objs = append(objs, o)
 	}
 	if len(objs) == 0 {
 		return
